@@ -849,6 +849,11 @@ class ExcAnalysis:
             par = getattr(call, "parent", None)
             if isinstance(par, ast.IfExp) and par.body is call and call.args and norm_txt(par.test) == norm_txt(call.args[0]):
                 return out  # `max(xs) if xs else ...`
+            up, ch = par, call  # ... also when the call sits inside the true arm: `D[max(xs)] if xs else ...`
+            while isinstance(up, (ast.Subscript, ast.Attribute, ast.Call, ast.BinOp, ast.Tuple)):
+                ch, up = up, getattr(up, "parent", None)
+            if isinstance(up, ast.IfExp) and up.body is ch and call.args and norm_txt(up.test) == norm_txt(call.args[0]):
+                return out
             if len(call.args) == 1 and not any(k.arg == "default" for k in call.keywords):
                 add(VE, f"{ext.split('.')[1]}(<possibly empty>)")
             return out
